@@ -340,6 +340,67 @@ func impliedByPhi(cond ssa.Value, val bool, iff *ssa.If, depth int) []edgeCond {
 	return out
 }
 
+// impliedByNilPhi: cond is `ph == nil` / `ph != nil` for a join ph of the results of a folded helper
+// (`return &wrappedErr{...}` / `return fmt.Errorf(...)` / `return nil`). Knowing the outcome of the test rules out
+// the edges that cannot have it (a nil constant when ph is non-nil; a value that is non-nil by construction when ph
+// is nil); if exactly one edge is left, what holds on that edge holds here.
+func impliedByNilPhi(cond ssa.Value, val bool, iff *ssa.If, depth int) []edgeCond {
+	if depth >= 3 {
+		return nil
+	}
+	x, nilWhenTrue, ok := nilCheckOf(cond)
+	if !ok {
+		return nil
+	}
+	ph, ok := x.(*ssa.Phi)
+	if !ok {
+		return nil
+	}
+	blk := ph.Block()
+	for _, p := range blk.Preds {
+		if blk.Dominates(p) {
+			return nil
+		}
+	}
+	isNilHere := nilWhenTrue == val
+	live, n := -1, 0
+	for ei, e := range ph.Edges {
+		if isNilHere && nonNilByConstruction(e) {
+			continue
+		}
+		if !isNilHere && isNilConst(e) {
+			continue
+		}
+		n++
+		live = ei
+	}
+	if n != 1 {
+		return nil
+	}
+	var out []edgeCond
+	e, pred := ph.Edges[live], blk.Preds[live]
+	if _, isC := e.(*ssa.Const); !isC {
+		// the value on the live edge has the tested nil-ness
+		syn := &ssa.BinOp{Op: token.EQL, X: e, Y: ssa.NewConst(nil, e.Type())}
+		out = append(out, edgeCond{Cond: syn, Val: isNilHere, If: iff})
+		out = append(out, impliedByNilPhi(syn, isNilHere, iff, depth+1)...)
+	}
+	if len(pred.Instrs) > 0 {
+		if iff2, ok := pred.Instrs[len(pred.Instrs)-1].(*ssa.If); ok && pred.Succs[0] != pred.Succs[1] {
+			for k, sc := range pred.Succs {
+				if sc == blk {
+					c, v := peelNot(iff2.Cond, k == 0)
+					out = append(out, edgeCond{Cond: c, Val: v, If: iff2})
+					out = append(out, impliedByPhi(c, v, iff2, depth+1)...)
+					out = append(out, impliedByNilPhi(c, v, iff2, depth+1)...)
+				}
+			}
+		}
+	}
+	out = append(out, condsDominatingD(pred, depth+1)...)
+	return out
+}
+
 func condsDominatingD(b *ssa.BasicBlock, depth int) []edgeCond {
 	var out []edgeCond
 	for x := b; x != nil; {
@@ -362,6 +423,7 @@ func condsDominatingD(b *ssa.BasicBlock, depth int) []edgeCond {
 						}
 						out = append(out, edgeCond{Cond: cond, Val: val, If: iff})
 						out = append(out, impliedByPhi(cond, val, iff, depth)...)
+						out = append(out, impliedByNilPhi(cond, val, iff, depth)...)
 					}
 				}
 			}
